@@ -226,6 +226,10 @@ def points(tier: str) -> List[Dict[str, Any]]:
                     if mode == "sync_close_foreign_loop" and (off // 1000) % 4:
                         continue  # the foreign thread runs an event loop of its own: a quarter of the instants
                     pts.append({"scenario": scenario, "jitter": jitter, "close_at_us": off, "mode": mode})
+    # a close that is cancelled part-way and requested again (every loop iteration of the first close as cancellation point)
+    for scenario, off in (("busy", 5_000_000), ("busy", 9_000_000), ("early", 400_000)):
+        for k in range(0, 40):
+            pts.append({"scenario": scenario, "jitter": 0.0, "close_at_us": off, "mode": "async_close_cancelled", "cancel_after": k})
     # closing again after the event loop itself has gone
     for scenario, off in (("busy", 5_000_000), ("busy", 2_600_000), ("early", 400_000)):
         for mode in ("async_close", "sync_close"):
@@ -274,6 +278,16 @@ def run_point(p: Dict[str, Any], verbose: bool = False) -> Tuple[Optional[Dict[s
             for t in host.transports():
                 t.eagain = eagain
         if p["mode"] == "async_close":
+            w.run_coro(azc.async_close(), max_ms=60_000)
+        elif p["mode"] == "async_close_cancelled":
+            # the application's close is cancelled after k loop iterations (a timeout around it, a cancelled parent task) and
+            # requested again, as a `finally:` would: the second request has to finish what the first one left undone
+            first = w.spawn(azc.async_close())
+            for _ in range(p["cancel_after"]):
+                if first.done() or not w.loop.step():
+                    break
+            first.cancel()
+            w.settle()
             w.run_coro(azc.async_close(), max_ms=60_000)
         else:
             with w.outside(foreign_loop=p["mode"] == "sync_close_foreign_loop"):
@@ -327,7 +341,7 @@ def run_point(p: Dict[str, Any], verbose: bool = False) -> Tuple[Optional[Dict[s
         if not all(t.closed for t in host.transports()):
             problems.append("sockets: a transport is still open after close returned")
         # second close: a no-op
-        if p["mode"] == "async_close":
+        if p["mode"] in ("async_close", "async_close_cancelled"):
             w.run_coro(azc.async_close(), max_ms=60_000)
         else:
             with w.outside(foreign_loop=p["mode"] == "sync_close_foreign_loop"):
